@@ -55,91 +55,103 @@ def showErr : Err String → String
   | .wrap e => "w(" ++ showErr e ++ ")"
   | .pair a b => "p(" ++ showErr a ++ "," ++ showErr b ++ ")"
 
-/-- the harness' rendering of a returned error (errors.As in the order coordinator, subset, communication, tss) -/
-def render (e : Err String) : String :=
-  match findCoord e with
-  | some (some p) => "coord:" ++ tokOf p
-  | some none => "coord:none"
-  | none => if findSubset e then "subset" else if findComm e then "comm" else if (findTss e).isSome then "tss" else "other"
+def showRes11 : Res11 String → String
+  | .ok => "ok" | .coord (some p) => "coord:" ++ tokOf p | .coord none => "coord:none" | .subset => "subset"
+  | .comm => "comm" | .tss => "tss" | .other => "other" | .panic => "panic"
+
+def parseRes11 (s : String) : Option (Res11 String) :=
+  match s with
+  | "ok" => some .ok | "subset" => some .subset | "comm" => some .comm | "tss" => some .tss | "other" => some .other
+  | "panic" => some .panic | "coord:none" => some (.coord none)
+  | _ => if s.startsWith "coord:" then (peerOf (s.drop 6).toString).map fun p => .coord (some p) else none
+
+/-- an observation in the harness' format; `wparams` is what a participant Run is printed with -/
+def showSeen (o : Seen String) (wparams : String := "p1") : String :=
+  let sel := match o.election with | some cs => toks cs | none => "none"
+  let start := match o.start with | some S => toks S | none => "none"
+  let run := match o.crun, o.wrun with
+    | some S, _ => "c:" ++ toks S
+    | none, true => "w:" ++ wparams
+    | none, false => "-"
+  s!"sel={sel};r={toks o.readyTo};n={o.consumed};start={start};run={run};res={showRes11 o.res}"
+
+def parseSeen (impl : String) : Option (Seen String) := do
+  let sel ← field impl "sel"
+  let election ← if sel = "none" then some none else (peers sel).map some
+  let readyTo ← (field impl "r").bind peers
+  let consumed ← (field impl "n").bind String.toNat?
+  let st ← field impl "start"
+  let start ← if st = "none" then some none else (peers st).map some
+  let run ← field impl "run"
+  let (crun, wrun) ← match items run "/" with
+    | [] => some (none, false)
+    | [r] => if r.startsWith "c:" then (peers (r.drop 2).toString).map fun S => (some S, false)
+             else if r.startsWith "w:" then some (none, true) else none
+    | _ => none                       -- more than one Run in the second attempt
+  let res ← (field impl "res").bind parseRes11
+  pure ⟨election, readyTo, consumed, start, crun, wrun, res⟩
+
+def kindOf : String → Option Kind
+  | "ecdsa-keygen" => some .ecdsaKeygen | "ecdsa-signing" => some .ecdsaSigning | "ecdsa-resharing" => some .ecdsaResharing
+  | "frost-keygen" => some .frostKeygen | "frost-signing" => some .frostSigning | "frost-resharing" => some .frostResharing
+  | _ => none
+
+def fixA : String := "QmcvEg7jGvuxdsUFRUiE4VdrL2P1Yeju5L83BsJvvXz7zX"
+def fixB : String := "QmeTuMtdpPB7zKDgmobEwSvxodrf5aFVSmBXX3SQJVjJaT"
+def fixC : String := "QmYAYuLUPNwYEBYJaKHcE7NKjUhiUV8txx2xDXHvcYa1xK"
 
 def classTag : Option (Class String) → String
   | none => "ambiguous"
   | some (.coord _) => "coord" | some .comm => "comm" | some (.tss _ true) => "tss" | some (.tss _ false) => "tss-undecodable"
   | some .subset => "subset" | some .unknown => "unknown"
 
-/-- the model of what the scenario observes after the first failure `e` (`secondAttempt` with the intended election
-    rule), rendered in the harness' format -/
+def electionKey' (sid : Bytes) (self : String) (holders : List String) (claimant : Option String) (arrivals : List String) :
+    String → Nat :=
+  keyOf sid (keyTab sid (self :: holders ++ claimant.toList ++ arrivals))
+
+/-- the model of what the scenario observes after the first failure `e`: `seenOf (secondAttempt …)` with the intended
+    election rule; `mode` = "" | "~" (three CoordinatorTimeout-long silences, then the claimant speaks) | "^" (the
+    claimant only keeps initiating until TssTimeout has passed) -/
 def second (self : String) (t : Nat) (sid : Bytes) (holders : List String) (e : Err String) (retryable : Bool)
-    (claimant : Option String) (arrivals : List String) (quiet : Bool := false) : String × String :=
-  let key := keyOf sid (keyTab sid (self :: holders ++ claimant.toList ++ arrivals))
+    (claimant : Option String) (arrivals : List String) (mode : String := "") : Seen String × String :=
+  let key := electionKey' sid self holders claimant arrivals
   let r := secondAttempt bullyElectedListed key self t holders e retryable claimant arrivals
-  let sel := match r.election with | some cs => toks cs | none => "none"
-  match r.outcome with
-  | .ended =>
-    -- the returned error: PeersFromParties' own (untyped) error for an undecodable culprit, else the original one
-    let res := if retryable && (match classify e with | .tss _ false => true | _ => false) then "other" else render e
-    (s!"sel={sel};r=-;start=none;run=-;res={res}", "giveup")
-  | .idle => (s!"sel={sel};r=-;start=none;run=-;res=ok", "waitstart:idle")
-  | .follows c =>
-    if r.election.isNone && quiet then
-      -- left out, and nothing is heard for three CoordinatorTimeouts before `c` initiates and starts the replacement
-      let st := runLeftOut [.quiet .coord, .quiet .coord, .quiet .coord, .msg (.init c), .msg (.start c (some 1))]
-      if st.timedOut || st.w.runs != [1] then ("sel=none;r=-;start=none;run=-;res=coord:none", "waitstart:expired")
-      else (s!"sel={sel};r={toks st.w.readies};start=none;run=w:p1;res=ok", "waitstart:quiet-then-started")
+  let o := seenOf arrivals r
+  let tag := match r.outcome with
+    | .ended _ => "giveup" | .idle => "waitstart:idle"
+    | .follows _ => if r.election.isSome then "retry:follows-claimant" else "waitstart:started"
+    | .announces _ _ => "retry:coordinates:announced" | .neverReady => "retry:coordinates:never-ready"
+  match r.outcome, r.election, mode with
+  | .follows c, none, "~" =>
+    -- left out; TssTimeout is 10 units, CoordinatorTimeout 2: three silences of 3 units, then `c` initiates and starts
+    let st := runLeftOut 10 [.tick, .tick, .tick, .tick, .tick, .tick, .tick, .tick, .tick, .msg (.init c), .msg (.start c (some 1))]
+    if st.timedOut || st.w.runs != [1] then (⟨none, [], 0, none, none, false, .coord none⟩, "waitstart:expired")
+    else ({ o with readyTo := st.w.readies }, "waitstart:quiet-then-started")
+  | .follows c, none, "^" =>
+    -- left out; `c` initiates again and again (each initiate re-arms waitForStart's ticker) but never starts: the fail
+    -- watcher's TssTimeout ticker, which nothing re-arms, ends the wait with its (untyped) time-out error
+    let st := runLeftOut 4 [.msg (.init c), .tick, .tick, .msg (.init c), .tick, .tick, .msg (.init c), .tick]
+    if st.timedOut then (⟨none, [c], 0, none, none, false, .other⟩, "waitstart:tss-timeout")
+    else ({ o with wrun := false }, "waitstart:unexpected")
+  | _, _, _ => (o, tag)
+
+/-- C11 on the implementation's observed behaviour, for an error `e` of unambiguous cause `k`: the decidable predicate
+    `P11` of the model (theorem model_satisfies_p11) on the parsed observation -/
+def p11 (self : String) (t : Nat) (sid : Bytes) (holders : List String) (e : Err String) (k : Class String)
+    (retryable : Bool) (claimant : Option String) (arrivals : List String) (impl : String) (mode : String := "") : Bool :=
+  if retryable && decide (self ∈ culprits k) then true else   -- outside model_satisfies_p11 (self_culprit_point)
+  match parseSeen impl with
+  | none => false
+  | some o =>
+    if mode = "^" && k = .subset && retryable then
+      -- the wait for the replacement start ends at TssTimeout (left_out_gives_up_at_tss_timeout): no election, no Run,
+      -- the watcher's untyped time-out error
+      decide (o.election = none) && decide (o.start = none) && decide (o.crun = none) && !o.wrun && decide (o.res = .other)
     else
-    (s!"sel={sel};r={tokOf c};start=none;run=w:p1;res=ok", if r.election.isSome then "retry:follows-claimant" else "waitstart:started")
-  | .announces S => (s!"sel={sel};r=-;start={toks S};run=c:{toks S};res=ok", "retry:coordinates:announced")
-  | .neverReady => (s!"sel={sel};r=-;start=none;run=-;res=ok", "retry:coordinates:never-ready")
-
-/-- what the relayer is expected to collect if it coordinates the new attempt itself: `(t, ready senders)`, when the
-    intended election rule makes it the coordinator (`none` otherwise) -/
-abbrev Collect := Option (Nat × List String)
-
-/-- C11 on the implementation's observed behaviour, for an unambiguous cause `k` -/
-def p11 (self : String) (holders : List String) (k : Class String) (retryable claimantGiven : Bool) (impl : String)
-    (collect : Collect := none) : Bool :=
-  if retryable && decide (self ∈ culprits k) then true else   -- outside second_attempt_clean (self_culprit_point)
-  match field impl "sel", field impl "start", field impl "run", field impl "res" with
-  | some sel, some start, some run, some res =>
-    let ended := sel == "none" && start == "none" && run == "-" && res != "ok"
-    if !retryable then ended else
-    match k with
-    | .unknown => ended
-    | .tss _ false => ended
-    | .subset => sel == "none" && start == "none" && res == "ok" && (!claimantGiven || (run.startsWith "w:" && !run.contains '/'))
-    | _ =>
-      let K := culprits k
-      let clean (s : String) : Bool := match peers s with
-        | some ps => ps.all fun p => decide (p ∉ K)
-        | none => false
-      let selOk := sel != "none" && clean sel && (match peers sel with | some ps => ps.all (· ∈ holders) | none => false)
-      let startOk := start == "none" || clean start
-      -- "starts a new attempt": when this relayer coordinates it, the announcement as a whole meets C07's clause — a subset
-      -- without culprits, and announced as soon as t distinct eligible key holders reported ready (AnnouncedOk)
-      let liveOk := match collect with
-        | none => true
-        | some (t, arrivals) =>
-          match (if start = "none" then some none else (peers start).map some) with
-          | some out => decide (AnnouncedOk (⟨self, holders, t, K⟩ : ICfg String) arrivals out) || !decide (self ∈ holders)
-          | none => false
-      let runOk := (items run "/").all fun r =>
-        if r.startsWith "c:" then clean (r.drop 2).toString else r.startsWith "w:"
-      -- the coordinator this relayer answers in the new attempt is no culprit
-      let followOk := match field impl "r" with
-        | some r => r == "-" || clean r
-        | none => false
-      selOk && startOk && liveOk && runOk && followOk && res == "ok"
-  | _, _, _, _ => false
-
-/-- does the relayer coordinate the new attempt under the intended election rule (then: what it collects) -/
-def collectOf (self : String) (t : Nat) (sid : Bytes) (holders : List String) (k : Class String) (retryable : Bool)
-    (claimant : Option String) (arrivals : List String) : Collect :=
-  if !retryable then none else
-  match plan k with
-  | .retry ex =>
-    let key := keyOf sid (keyTab sid (self :: holders ++ claimant.toList))
-    if bullyElectedListed key self (nextCandidates holders ex) claimant = self then some (t, arrivals) else none
-  | _ => none
+    let key := electionKey' sid self holders claimant arrivals
+    let coordinates := decide (bullyElectedListed key self (nextCandidates holders (culprits k)) claimant = self)
+    -- (ready targets: the same coordinator may be answered more than once when it initiates more than once)
+    decide (P11 self holders t e k retryable coordinates claimant arrivals { o with readyTo := o.readyTo.eraseDups })
 
 def handle (op : String) (args : List String) (impl : String) : Option Verdict :=
   match op, args with
@@ -155,26 +167,32 @@ def handle (op : String) (args : List String) (impl : String) : Option Verdict :
     let some holders := peers holders | return bad
     let some e := parseSpec spec | return bad
     let claimant := if claimant.startsWith "!" then (claimant.drop 1).toString else claimant  -- `!` marks a culprit claimant
-    let quiet := claimant.startsWith "~"   -- `~`: three silences longer than CoordinatorTimeout before the claimant speaks
-    let claimant := if quiet then (claimant.drop 1).toString else claimant
+    -- `~`: three silences longer than CoordinatorTimeout before the claimant speaks; `^`: it only initiates, past TssTimeout
+    let mode := if claimant.startsWith "~" then "~" else if claimant.startsWith "^" then "^" else ""
+    let claimant := if mode != "" then (claimant.drop 1).toString else claimant
     let some claimant := (if claimant = "-" then some none else (peerOf claimant).map some) | return bad
     let some arrivals := peers arrivals | return bad
     match e with
-    | none => return ⟨"sel=none;r=-;start=none;run=-;res=ok", impl == "sel=none;r=-;start=none;run=-;res=ok", "handle:nil"⟩
+    | none =>
+      let m := showSeen ⟨none, [], 0, none, none, false, .ok⟩
+      return ⟨m, impl == m, "handle:nil"⟩
     | some e =>
-      let (m, tag) := second self t sid holders e true claimant arrivals quiet
+      let (o, tag) := second self t sid holders e true claimant arrivals mode
       let ok := match intended e with
-        | some k => p11 self holders k true claimant.isSome impl (collectOf self t sid holders k true claimant arrivals)
-        | none => true
-      return ⟨m, ok, s!"handle:{classTag (intended e)}:{tag}"⟩
+        | some k => p11 self t sid holders e k true claimant arrivals impl mode
+        | none => true      -- two different typed causes at once: outside the property's quantifier (level_note)
+      return ⟨showSeen o, ok, s!"handle:{classTag (intended e)}:{tag}"⟩
   | "exec", [self, t, sid, holders, retryable, first, claimant, arrivals] => some <| Id.run do
     let some self := peerOf self | return bad
     let some t := t.toNat? | return bad
     let some sid := fromHex sid | return bad
     let some holders := peers holders | return bad
-    let retryable := retryable == "1"
-    let quiet := claimant.startsWith "~"
-    let claimant := if quiet then (claimant.drop 1).toString else claimant
+    -- retryable: 0 | 1, or one of the six process kinds (then: what the REAL process object answered to Retryable())
+    let some retryable := (match retryable with
+      | "0" => some false | "1" => some true
+      | k => (kindOf k).map retryableOf) | return bad
+    let mode := if claimant.startsWith "~" then "~" else if claimant.startsWith "^" then "^" else ""
+    let claimant := if mode != "" then (claimant.drop 1).toString else claimant
     let some claimant := (if claimant = "-" then some none else (peerOf claimant).map some) | return bad
     let some arrivals := peers arrivals | return bad
     let key := keyOf sid (keyTab sid holders)
@@ -182,9 +200,9 @@ def handle (op : String) (args : List String) (impl : String) : Option Verdict :
     if first.startsWith "silent" then   -- `silent:<peer>`: <peer> keeps sending initiate messages meanwhile (ignored)
       if c = self then return ⟨"selfcoord", impl == "selfcoord", "exec:selfcoord"⟩
       let e : Err String := .wrap (.coord (some c))
-      let (m, tag) := second self t sid holders e retryable claimant arrivals quiet
-      return ⟨"run1=none;" ++ m, p11 self holders (.coord (some c)) retryable claimant.isSome impl
-        (collectOf self t sid holders (.coord (some c)) retryable claimant arrivals), s!"exec:silent:retryable={retryable}:{tag}"⟩
+      let (o, tag) := second self t sid holders e retryable claimant arrivals mode
+      return ⟨"run1=none;" ++ showSeen o, p11 self t sid holders e (.coord (some c)) retryable claimant arrivals impl mode,
+        s!"exec:silent:retryable={retryable}:{tag}"⟩
     -- `f:<code>`: watchExecution fails first (fail message from the coordinator), then the cancelled Run with <code>
     let withFail := first.startsWith "f:"
     let some (some leaf) := parseLeaf (if withFail then (first.drop 2).toString else first) | return bad
@@ -195,12 +213,22 @@ def handle (op : String) (args : List String) (impl : String) : Option Verdict :
         | none => "none"
       else "w:p0"
     if run1 = "none" then return ⟨"BADSCENARIO", false, "exec:badscenario"⟩
-    let (m, tag) := second self t sid holders e retryable claimant arrivals quiet
+    let (o, tag) := second self t sid holders e retryable claimant arrivals mode
     let ok := match intended e with
-      | some k => p11 self holders k retryable claimant.isSome impl (collectOf self t sid holders k retryable claimant arrivals)
+      | some k => p11 self t sid holders e k retryable claimant arrivals impl mode
       | none => true
-    return ⟨s!"run1={run1};" ++ m, ok, s!"exec:{if c = self then "coordinator" else "participant"}:withfail={withFail}:retryable={retryable}:{classTag (intended e)}:{tag}"⟩
-  | "realholders", [_] => some ⟨impl, true, "realholders"⟩   -- (fixture facts; inputs of the `real` lines)
+    return ⟨s!"run1={run1};" ++ showSeen o, ok, s!"exec:{if c = self then "coordinator" else "participant"}:withfail={withFail}:retryable={retryable}:{classTag (intended e)}:{tag}"⟩
+  | "realholders", [i] =>
+    -- the three fixture relayers (tss/test/pks, tss/test/keyshares): owner;holders as pinned here
+    let m := match i with
+      | "0" => s!"{fixA};{fixA},{fixB},{fixC}" | "1" => s!"{fixB};{fixB},{fixC},{fixA}" | "2" => s!"{fixC};{fixB},{fixA},{fixC}"
+      | _ => "BADARGS"
+    some ⟨m, m == impl, "realholders"⟩
+  | "retryable", [k] =>
+    -- the real process object's answer to Retryable(): only signing is retryable (obligation gen_retryable)
+    match kindOf k with
+    | some kind => let m := if retryableOf kind then "1" else "0"; some ⟨m, m == impl, s!"retryable:{k}"⟩
+    | none => some bad
   | "real", [_i, self, t, sid, holders, first, partner, claimant, ready2] => some <| Id.run do
     let some self := peerOf self | return bad
     let some t := t.toNat? | return bad
@@ -221,13 +249,11 @@ def handle (op : String) (args : List String) (impl : String) : Option Verdict :
       | "m" => some Err.comm | "mp" => some Err.comm
       | "t" => some (Err.tss [other] true) | "s" => some Err.subset | _ => none) | return bad
     let e : Err String := .wrap (.wrap leaf)
-    let (m0, tag) := second self t sid holders e true claimant (ready2 ++ [peerTab.getD 9 ""])
+    let (o, tag) := second self t sid holders e true claimant ready2
     -- the replacement start a claimant sends carries the real params [claimant, self]
-    let m := match claimant with
-      | some r => m0.replace "w:p1" ("w:" ++ toks [r, self])
-      | none => m0
+    let m := showSeen o (match claimant with | some r => toks [r, self] | none => "p1")
     let ok := match intended e with
-      | some k => p11 self holders k true claimant.isSome impl (collectOf self t sid holders k true claimant ready2)
+      | some k => p11 self t sid holders e k true claimant ready2 impl
       | none => true
     return ⟨s!"run1={run1};" ++ m, ok, s!"real:{if c = self then "coordinator" else "participant"}:{first}:{tag}"⟩
   | _, _ => none
